@@ -6456,20 +6456,30 @@ func (c *linkerContext) generateChunkCSS(chunkIndex int, chunkWaitGroup *sync.Wa
 		}
 		chunk.jsonMetadataChunkCallback = func(finalOutputSize int) helpers.Joiner {
 			finalRelDir := c.fs.Dir(chunk.finalRelPath)
-			isFirst := true
+
+			// A file that is imported more than once (e.g. with different import
+			// conditions) is in the chunk more than once but has a single entry
+			var metaOrder []uint32
+			metaCounts := make(map[uint32]int)
 			for i, compileResult := range compileResults {
 				if !compileResult.sourceIndex.IsValid() {
 					continue
 				}
-				if isFirst {
-					isFirst = false
-				} else {
+				sourceIndex := compileResult.sourceIndex.GetIndex()
+				if _, ok := metaCounts[sourceIndex]; !ok {
+					metaOrder = append(metaOrder, sourceIndex)
+				}
+				metaCounts[sourceIndex] += c.accurateFinalByteCount(pieces[i], finalRelDir)
+			}
+
+			for i, sourceIndex := range metaOrder {
+				if i > 0 {
 					jMeta.AddString(",")
 				}
 				jMeta.AddString(fmt.Sprintf(
 					c.options.MetafileFormat.MaybeRemoveWhitespace("\n        %s: {\n          \"bytesInOutput\": %d\n        }"),
-					helpers.QuoteForJSON(c.graph.Files[compileResult.sourceIndex.GetIndex()].InputFile.Source.PrettyPaths.Select(c.options.MetafilePathStyle), c.options.ASCIIOnly),
-					c.accurateFinalByteCount(pieces[i], finalRelDir)))
+					helpers.QuoteForJSON(c.graph.Files[sourceIndex].InputFile.Source.PrettyPaths.Select(c.options.MetafilePathStyle), c.options.ASCIIOnly),
+					metaCounts[sourceIndex]))
 			}
 			if len(compileResults) > 0 {
 				jMeta.AddString(c.options.MetafileFormat.MaybeRemoveWhitespace("\n      "))
